@@ -237,9 +237,13 @@ func RunWalletXMSS(ep *Episode) *Result {
 	}
 	orig = nil // crash
 
-	for _, form := range ep.Forms {
+	for fi, form := range ep.Forms {
 		res.Steps++
 		res.Faults.Add("crash-restart:form="+form, 1)
+		if ep.Traffic {
+			backgroundTraffic(ep, before.o.pk, fi)
+			res.Probes.Add("wallet:restore-after-unrelated-calls", 1)
+		}
 		var k *xmss.XMSS
 		oc := guard(func() {
 			switch form {
@@ -286,6 +290,44 @@ func RunWalletXMSS(ep *Episode) *Result {
 		}
 	}
 	return res
+}
+
+// backgroundTraffic: unrelated stateless calls a wallet process may well serve
+// before it restores a key. Their results are not judged here (that is C15's
+// business); they must not influence the recovery that follows.
+func backgroundTraffic(ep *Episode, pk [xmss.ExtendedPKSize]uint8, round int) {
+	r := core.NewRand(ep.DrainSeed ^ uint64(round)*0x9e37)
+	guard(func() {
+		var a [common.AddressSize]uint8
+		r.Bytes(a[:])
+		xmss.IsValidXMSSAddress(a)
+		a[0], a[1] = 0x01, byte(r.Intn(16))
+		xmss.IsValidXMSSAddress(a)
+	})
+	// a verification for a key of another height first
+	guard(func() {
+		oh := uint8(4)
+		if ep.Height == 4 {
+			oh = 6
+		}
+		var opk [xmss.ExtendedPKSize]uint8
+		r.Bytes(opk[:])
+		d := xmss.NewQRLDescriptor(oh, xmss.HashFunction(r.Intn(3)), common.XMSSSig, common.SHA256_2X).GetBytes()
+		copy(opk[:3], d[:])
+		sig := make([]byte, 4+32+67*32+int(oh)*32)
+		r.Bytes(sig)
+		sig[0], sig[1], sig[2] = 0, 0, 0
+		xmss.Verify([]byte("other key"), sig, opk)
+	})
+	for _, wk := range [][2]uint32{{4, 133 * 32}, {256, 34 * 32}, {16, 67 * 32}} {
+		if r.Chance(0.5) {
+			continue
+		}
+		sig := make([]byte, 4+32+int(wk[1])+int(ep.Height)*32)
+		r.Bytes(sig)
+		sig[0], sig[1], sig[2] = 0, 0, 0
+		guard(func() { xmss.VerifyWithCustomWOTSParamW([]byte("unrelated"), sig, pk, wk[0]) })
+	}
 }
 
 // ---------------------------------------------------------------- Dilithium
@@ -483,6 +525,7 @@ func newWalletBatch(b *Batch, fr *core.Rand, thorough bool) {
 		if h <= 10 && r.Chance(0.2) {
 			ep.ExportLate = true
 		}
+		ep.Traffic = r.Chance(0.3)
 		if stub && leaves >= 1024 && r.Chance(0.3) { // signatures far into the key's life
 			ep.AtIndex = r.Uint32n(minU(leaves-4, 5000))
 		}
@@ -506,14 +549,14 @@ func newWalletBatch(b *Batch, fr *core.Rand, thorough bool) {
 		}
 	}
 	// seeds with extreme byte patterns
-	for i, pat := range [][2]byte{{0x00, 0x00}, {0xff, 0xff}, {0xff, 0x00}, {0x00, 0xff}, {0x0f, 0xf0}, {0x20, 0x20}} {
+	for i, pat := range [][2]byte{{0x00, 0x00}, {0xff, 0xff}, {0xff, 0x00}, {0x00, 0xff}, {0x0f, 0xf0}, {0x20, 0x20}, {0x11, 0x11}, {0x01, 0x01}, {0x07, 0x70}, {0x99, 0x12}, {0x08, 0x90}, {0xaa, 0xaa}} {
 		sd := make([]byte, 48)
 		for j := range sd {
 			sd[j] = pat[1]
 		}
 		sd[0], sd[47] = pat[0], pat[0]
 		b.Fixed = append(b.Fixed, &Episode{Kind: "wallet-dil", Profile: "c09-patterns", Create: "seed", SeedHex: hex.EncodeToString(sd), NSigs: 2, Forms: dForms, DrainSeed: fr.Uint64()})
-		b.Fixed = append(b.Fixed, &Episode{Kind: "wallet-xmss", Profile: "c09-patterns", Height: []uint8{4, 6, 8, 10, 12, 14}[i], Hash: uint8(i % 3), Stub: true, SeedHex: hex.EncodeToString(sd), Create: "seed", NSigs: 3, Forms: xForms, DrainSeed: fr.Uint64()})
+		b.Fixed = append(b.Fixed, &Episode{Kind: "wallet-xmss", Profile: "c09-patterns", Height: []uint8{4, 6, 8, 10, 12, 14}[i%6], Hash: uint8(i % 3), Stub: true, SeedHex: hex.EncodeToString(sd), Create: "seed", NSigs: 3, Forms: xForms, DrainSeed: fr.Uint64()})
 	}
 	if thorough {
 		// tall trees: the height nibble of the descriptor above 16
